@@ -376,6 +376,22 @@ def d5(prog, ctx):
         ctx.undecided("D5", fd, fd._qualname, "no nested pair of comparison loops found in find_duplicates")
         return
     jumps = [x for l in cmp_loops for x in ast.walk(l) if isinstance(x, (ast.Break, ast.Return))]
+
+    def last_index_exit(x):
+        """`break` of the outer loop taken when its index is the last one (i + 1 == n / i == n - 1): the inner loop would be empty"""
+        outer = [l for l in cmp_loops if l in nested]
+        if not isinstance(x, ast.Break) or not outer or not isinstance(outer[0].target, ast.Name):
+            return False
+        if any(isinstance(l, ast.For) and l is not outer[0] for l in flow.enclosing_loops(x) if l in cmp_loops and l is not outer[0]):
+            return False
+        iv = outer[0].target.id
+        for g in flow.guards_of(x, stop=outer[0]):
+            t = g.test
+            if g.polarity and isinstance(t, ast.Compare) and isinstance(t.ops[0], (ast.Eq, ast.GtE)) and \
+                    re.match(r"^%s \+ 1 (==|>=) .+$|^%s (==|>=) .+ - 1$" % (iv, iv), src(t)):
+                return True
+        return False
+    jumps = [x for x in jumps if not last_index_exit(x)]
     if jumps:
         ctx.fail("D5", jumps[0], fd._qualname, src(jumps[0]), "the duplicate search leaves a loop early: with three or more copies of a "
                  "record (read seen in three sub-regions) only some are discarded and identical records are reported twice")
@@ -745,6 +761,9 @@ def d7(prog, ctx):
     ga, add, fill = meths.get("get_alignments"), meths.get("add_alignment"), meths.get("fill_index")
     if not (ga and add and fill):
         raise AnalysisError("InMemoryAlignmentStorage: get_alignments / add_alignment / fill_index not found")
+    # small helpers of the class (e.g. a position -> bin function) are expanded in place
+    ga, add, fill = (prog.func_inlined(AP, "InMemoryAlignmentStorage." + n_, exclude=("fill_index",))
+                     for n_ in ("get_alignments", "add_alignment", "fill_index"))
     n = 0
     # (i) meaning of the two index tables, from add_alignment: key expression and first-occurrence guard
     keys = {}
@@ -950,12 +969,15 @@ def d9(prog, ctx):
     res = meths["resolve"]
     branches = {}
     for i in [x for x in walk_no_nested(res) if isinstance(x, ast.If)]:
-        mm = re.search(r"self\.strategy == MultimapResolvingStrategy\.(\w+)", src(i.test))
+        # (the strategy may have been taken into a local first: strategy = self.strategy if ... )
+        mm = re.search(r"(?:self\.)?strategy == MultimapResolvingStrategy\.(\w+)", src(i.test))
         if mm:
             branches[mm.group(1)] = i
     for v, st in sorted(values.items()):
         if v.startswith("<user option"):
             todo = sorted(branches)
+        elif not branches:
+            ctx.undecided("D9", res, "MultimapResolver.resolve", "no `strategy == MultimapResolvingStrategy.X` branches found")
         elif v not in branches:
             ctx.fail("D9", st, "set_additional_params", src(st)[:80], "strategy %r has no branch in MultimapResolver.resolve" % v)
             continue
